@@ -97,3 +97,13 @@ Theorem C13_delete_confined :
                  cs <> [] /\ canon_comps cs = true /\ p = abs_of (pc ++ cs)%list.
 Proof. exact pkg_delete_confined. Qed.
 Print Assumptions C13_delete_confined.
+
+(* … over sequences of Writes on ONE LocalPackageReadWriter (refused ones included): the tracked-file set
+   is the set read from the package, so every deletion of every step is a read file below the package *)
+Theorem C13_delete_confined_sequences :
+  forall pc files steps ds p,
+    canon_comps pc = true -> Forall rel_canon files ->
+    In (Ok ds) (rw_run (abs_of pc) files steps) -> In p ds ->
+    exists f cs, In f files /\ cs <> [] /\ canon_comps cs = true /\ p = abs_of (pc ++ cs)%list.
+Proof. exact rw_run_deletes_confined. Qed.
+Print Assumptions C13_delete_confined_sequences.
